@@ -713,6 +713,26 @@ Definition rm_key (s : store) (dr kr : iref) (strict : bool) : store * out :=
   end.
 
 (** * Operations *)
+(* AnnotationDataSet::insert(DataKey::new(id)) on an existing set: a key declared without data.
+   The key -> data index only grows when data is inserted, so a declared key may lie beyond it. *)
+Definition dset_add_key (d : dset) (tok : nat) : dset * out :=
+  match ref_key d (ById tok) with
+  | Some k => (d, OOk k)              (* the same key again: returned as is *)
+  | None =>
+      let k := length (d_keys d) in
+      (mkset (d_id d) (d_keys d ++ [Some tok]) (d_data d) (id_put (d_kidx d) tok k) (d_xidx d) (d_k2x d), OOk k)
+  end.
+
+Definition store_add_key (s : store) (dr : iref) (tok : nat) : store * out :=
+  match ref_set s dr with
+  | None => (s, OErr)
+  | Some h =>
+      match get_set s h with
+      | None => (s, OErr)
+      | Some d => let '(d', r) := dset_add_key d tok in (set_sets s (set_slot (sets s) h (Some d')), r)
+      end
+  end.
+
 Inductive op :=
 | AddRes (id len : nat)
 | AddSet (id : nat)
@@ -722,7 +742,8 @@ Inductive op :=
 | RmData (d x : iref) (strict : bool)
 | RmKey (d k : iref) (strict : bool)
 | RmRes (r : iref)
-| RmSet (r : iref).
+| RmSet (r : iref)
+| AddKey (d : iref) (tok : nat).
 
 Definition step (s : store) (o : op) : store * out :=
   match o with
@@ -738,6 +759,7 @@ Definition step (s : store) (o : op) : store * out :=
   | RmKey d k st => rm_key s d k st
   | RmRes r => rm_resource s r
   | RmSet r => rm_dataset s r
+  | AddKey d tok => store_add_key s d tok
   end.
 
 Definition run (ops : list op) : store := fold_left (fun s o => fst (step s o)) ops empty_store.
